@@ -22,8 +22,10 @@ pub mod balance;
 /// Shared event recorder so that events survive a panic or hang of the run.
 #[derive(Clone, Default)]
 pub struct Rec(pub std::sync::Arc<std::sync::Mutex<Vec<Value>>>);
+/// While set, `Rec::ev` drops events: a warm-up call made before the judged one must leave no trace of its own.
+pub static REC_PAUSED: std::sync::atomic::AtomicBool = std::sync::atomic::AtomicBool::new(false);
 impl Rec {
-    pub fn ev(&self, v: Value) { self.0.lock().unwrap_or_else(|e| e.into_inner()).push(v); }
+    pub fn ev(&self, v: Value) { if REC_PAUSED.load(std::sync::atomic::Ordering::SeqCst) { return; } self.0.lock().unwrap_or_else(|e| e.into_inner()).push(v); }
     pub fn extend(&self, vs: Vec<Value>) { self.0.lock().unwrap_or_else(|e| e.into_inner()).extend(vs); }
     pub fn take(&self) -> Vec<Value> { std::mem::take(&mut *self.0.lock().unwrap_or_else(|e| e.into_inner())) }
 }
@@ -74,6 +76,7 @@ pub fn run_all(lab: &str, stims: Vec<Value>, out: &mut Out) {
     for (k, stim) in stims.into_iter().enumerate() {
         out.ev(json!({"e":"reset","run":k as u64 + 1,"lab":lab,"stim":stim.clone()}));
         if hangs >= 3 { out.ev(json!({"e":"end","outcome":"skipped"})); continue; }
+        REC_PAUSED.store(false, std::sync::atomic::Ordering::SeqCst);
         let (tx, rx) = std::sync::mpsc::channel();
         let lab_s = lab.to_string();
         let st = stim.clone();
